@@ -24,8 +24,18 @@ fn main() {
     let rounds = cfg.n(400, 20_000);
     let mut rng = cfg.rng(1500);
     prelude::SALT.store((cfg.seed << 20) ^ ((cfg.shard as u64) << 52), std::sync::atomic::Ordering::Relaxed);
-    for _ in 0..rounds {
-        gen::run_all(&mut rep, &mut rng);
+    // safety net for a panic that escapes the drivers (they catch per call): inside /repo => violation
+    if let Err(msg) = vnet::catch(std::panic::AssertUnwindSafe(|| {
+        for _ in 0..rounds {
+            gen::run_all(&mut rep, &mut rng);
+        }
+    })) {
+        let prop = "C15".to_string();
+        if msg.contains("[at /repo/") {
+            rep.violation(&format!("{prop}/panic-in-zlink-escaped-the-monitor"), msg, serde_json::json!({"monitor": "c15"}));
+        } else {
+            rep.inconclusive.push(format!("the drivers panicked: {msg}"));
+        }
     }
     rep.add("corpus_interfaces", gen::N_INTERFACES as u64);
     for f in gen::CODEGEN_FAILURES {
